@@ -252,6 +252,9 @@ Section C13.
     (fun ny : name * node =>
        child_res H ign flt cfg oc oic dirty adir p mask bl (fst ny) (snd ny)).
 
+  Lemma ignore_of_nil : forall cp d, ignore_of ign [] cp d = ign cp d.
+  Proof. reflexivity. Qed.
+
   Lemma ignore_of_oic : forall cp d, ignore_of ign oic cp d = ign cp d.
   Proof.
     intros cp d. unfold ignore_of. destruct (ic_lookup cp d oic) as [v|] eqn:E; [|reflexivity].
@@ -327,15 +330,19 @@ Section C13.
     pose proof (fchild_class _ _ _ _ _ _ _ _ _ Er) as Hcl.
     destruct Hcl as [m2 c2 mask' out2 ics2 cnts2 ic' _ _ _ _ _ Ht _|mo do Hk Hy Ht Hmt _|Hv _ _].
     - subst to. discriminate.
-    - subst no yo to. cbn [ct_val] in Hc. inversion Hc. subst ce. clear Hc.
+    - subst no yo to. cbn [ct_val] in Hc.
+      assert (Ece : ce = new_centry (S_IFREG + m_mode mo) mo (H do)) by congruence.
+      subst ce. clear Hc.
       pose proof (old_child_get _ _ _ _ _ _ Hod Hino) as Hgo.
-      unfold content_match in Em. cbn [new_centry ce_mode ce_mtime ce_size ce_fid] in Em.
+      unfold content_match in Em.
       apply andb_true_iff in Em. destruct Em as [Em Efid].
       apply andb_true_iff in Em. destruct Em as [Em Esize].
       apply andb_true_iff in Em. destruct Em as [_ Emtime].
       apply N.eqb_eq in Efid. apply N.eqb_eq in Esize. apply N.eqb_eq in Emtime.
+      cbn [new_centry ce_mtime] in Emtime. cbn [new_centry ce_size] in Esize. cbn [new_centry ce_fid] in Efid.
       assert (Ed : do = df) by (apply (G2 _ _ _ _ _ Hgo Hgn); congruence).
-      subst do. cbn [ce_digest new_centry].
+      subst do. change (ce_digest (new_centry (S_IFREG + m_mode mo) mo (H df))) with (H df).
+      change (ce_mode (new_centry (S_IFREG + m_mode mo) mo (H df))) with (S_IFREG + m_mode mo)%N.
       destruct (N.eqb (S_IFREG + m_mode mf) (S_IFREG + m_mode mo)) eqn:Emode.
       + apply N.eqb_eq in Emode. unfold file_finish.
         assert (Hmt' : mtime_valid (m_mtime mf) = true) by congruence.
@@ -343,5 +350,155 @@ Section C13.
         rewrite Emtime, Esize, Efid. reflexivity.
       + reflexivity.
     - congruence.
+  Qed.
+
+  (* ----- the induction ----- *)
+  Definition accel_ok (y : node) : Prop :=
+    forall p mask bl co (oldkids : list (name * (entry * ctree))),
+      get p XN = Some y -> is_dir y = true ->
+      old_dir p mask co oldkids ->
+      (bl = None \/ bl = Some (amap fst oldkids)) ->
+      res_equiv (adir p y bl mask) (fdir' p y None mask).
+
+  Lemma run_kids_nil_out : forall out ics cnts,
+    run_kids [] = Some (out, ics, cnts) -> out = [].
+  Proof. intros out ics cnts Hr. cbn in Hr. congruence. Qed.
+
+  Lemma dir_baseline_cases : forall bl (oldkids : list (name * (entry * ctree))) n,
+    (bl = None \/ bl = Some (amap fst oldkids)) ->
+    dir_baseline bl n =
+    match bl, alookup n oldkids with
+    | Some _, Some (EDir d, _) => Some d
+    | _, _ => None
+    end.
+  Proof.
+    intros bl oldkids n [->| ->]; [reflexivity|]. unfold dir_baseline.
+    rewrite lookup_alookup, alookup_amap. destruct (alookup n oldkids) as [[e t]|]; [|reflexivity].
+    cbn [option_map fst]. destruct e; reflexivity.
+  Qed.
+
+  Lemma dir_equiv : forall p mask bl co oldkids m c n m2 c2 mask',
+    get p XN = Some (NDir m c) -> In (n, NDir m2 c2) c ->
+    old_dir p mask co oldkids ->
+    (bl = None \/ bl = Some (amap fst oldkids)) ->
+    is_temp n = false -> utf8_valid n = true ->
+    decide mask (ign (p ++ [n]) true) = DScan mask' ->
+    accel_ok (NDir m2 c2) ->
+    res_equiv (handle H flt cfg oc oic dirty adir (p ++ [n]) bl n (NDir m2 c2) mask')
+              (fnode' (p ++ [n]) (NDir m2 c2) mask').
+  Proof.
+    intros p mask bl co oldkids m c n m2 c2 mask' Hg Hin Hod Hbl Et Ev Ed IHy.
+    pose proof (new_child_get _ _ _ _ _ Hg Hin) as Hgn.
+    unfold handle. cbn [fnode]. rewrite (dir_baseline_cases _ _ _ Hbl).
+    (* the case where nothing usable is known about the old content at n *)
+    assert (Hnone : (forall n2 q, ct_get ((p ++ [n]) ++ n2 :: q) oc = None) ->
+                    res_equiv (adir (p ++ [n]) (NDir m2 c2) None mask')
+                              (fdir' (p ++ [n]) (NDir m2 c2) None mask')).
+    { intro Hc. apply (IHy (p ++ [n]) mask' None [] []); auto.
+      apply old_dir_nil. exact Hc. }
+    destruct (alookup n oldkids) as [[eo to]|] eqn:El.
+    2:{ assert (Hc : forall n2 q, ct_get ((p ++ [n]) ++ n2 :: q) oc = None).
+        { intros n2 q. rewrite <- app_assoc. cbn [app]. rewrite (od_cache _ _ _ _ Hod), El. reflexivity. }
+        destruct bl; apply Hnone; exact Hc. }
+    destruct (old_lookup _ _ _ _ _ _ _ Hod El) as [no [yo [ic [cnt [Hino Er]]]]].
+    pose proof (fchild_class _ _ _ _ _ _ _ _ _ Er) as Hcl.
+    assert (Hflat : ct_kids to = [] -> (forall d, eo <> EDir d) ->
+                    res_equiv match bl with
+                              | Some _ => match eo with
+                                          | EDir d => if reusable dirty (p ++ [n]) d then reuse oc oic (p ++ [n]) d
+                                                      else adir (p ++ [n]) (NDir m2 c2) (Some d) mask'
+                                          | _ => adir (p ++ [n]) (NDir m2 c2) None mask'
+                                          end
+                              | None => adir (p ++ [n]) (NDir m2 c2) None mask'
+                              end (fdir' (p ++ [n]) (NDir m2 c2) None mask')).
+    { intros Hk Hne.
+      assert (Hc : forall n2 q, ct_get ((p ++ [n]) ++ n2 :: q) oc = None).
+      { intros n2 q. rewrite <- app_assoc. cbn [app]. rewrite (od_cache _ _ _ _ Hod), El.
+        cbn [snd ct_get]. rewrite Hk. reflexivity. }
+      destruct bl; [|apply Hnone; exact Hc].
+      destruct eo; try (apply Hnone; exact Hc). exfalso. apply (Hne c0). reflexivity. }
+    assert (Hgoal : res_equiv match bl with
+                              | Some _ => match eo with
+                                          | EDir d => if reusable dirty (p ++ [n]) d then reuse oc oic (p ++ [n]) d
+                                                      else adir (p ++ [n]) (NDir m2 c2) (Some d) mask'
+                                          | _ => adir (p ++ [n]) (NDir m2 c2) None mask'
+                                          end
+                              | None => adir (p ++ [n]) (NDir m2 c2) None mask'
+                              end (fdir' (p ++ [n]) (NDir m2 c2) None mask')).
+    2:{ destruct bl; [destruct eo|]; exact Hgoal. }
+    destruct Hcl as [mo2 co2 mask'o out2 ics2 cnts2 ic' Hk Hy Hdo Hrk He Ht Hfn|mo do Hk Hy Ht Hmt Hne|Hv Hk Hne].
+    2:{ apply Hflat; [subst to; reflexivity|exact Hne]. }
+    2:{ apply Hflat; assumption. }
+    (* the old content at n was a directory that was scanned *)
+    subst no yo. rewrite Ed in Hdo. inversion Hdo. subst mask'o. clear Hdo.
+    pose proof (old_child_get _ _ _ _ _ _ Hod Hino) as Hgo.
+    assert (Hod2 : old_dir (p ++ [n]) mask' co2 out2).
+    { constructor.
+      - right. exists mo2. exact Hgo.
+      - exists ics2, cnts2. exact Hrk.
+      - intros n2 q. rewrite <- app_assoc. cbn [app]. rewrite (od_cache _ _ _ _ Hod), El.
+        cbn [snd]. subst to. cbn [ct_get ct_kids]. rewrite alookup_amap.
+        destruct (alookup n2 out2); reflexivity. }
+    destruct bl as [bc|].
+    2:{ apply (IHy (p ++ [n]) mask' None co2 out2); auto. }
+    destruct mask'.
+    { subst eo. apply (IHy (p ++ [n]) true None co2 out2); auto. }
+    subst eo. cbv iota.
+    destruct (reusable dirty (p ++ [n]) (amap fst out2)) eqn:Eru.
+    2:{ apply (IHy (p ++ [n]) false (Some (amap fst out2)) co2 out2); auto. }
+    (* re-use of the baseline *)
+    unfold reusable in Eru. apply negb_true_iff in Eru. apply orb_false_iff in Eru.
+    destruct Eru as [Edirty Enonempty].
+    assert (Hco2 : co2 <> []).
+    { intros ->. apply run_kids_nil_out in Hrk. subst out2. discriminate. }
+    assert (Eyy : NDir mo2 co2 = NDir m2 c2).
+    { apply (G1 (p ++ [n])); auto. }
+    rewrite Eyy in Hfn.
+    pose proof (scan_wf_get _ _ _ HwfN Hgn) as Hwf2.
+    destruct (fresh_counts _ _ _ _ _ _ Hwf2 _ _ _ _ _ _ Hfn) as [C1 [C2 [C3 [_ [C5 C6]]]]].
+    assert (Hc : forall q, ct_get ((p ++ [n]) ++ q) oc = ct_get q to).
+    { intro q. rewrite <- app_assoc. cbn [app]. rewrite (od_cache _ _ _ _ Hod), El. reflexivity. }
+    destruct (walk_shape oc oic _ _ _ C6 Hc) as [icw Hw].
+    unfold reuse. rewrite Hw. cbn [fnode] in Hfn. rewrite Hfn. cbn [res_equiv].
+    split; [reflexivity|split; [reflexivity|]].
+    apply cnt_eq; cbn [cnt_et n_dirs n_files n_links n_bytes]; congruence.
+  Qed.
+
+  Lemma child_equiv : forall p mask bl co oldkids m c n y,
+    get p XN = Some (NDir m c) -> In (n, y) c ->
+    old_dir p mask co oldkids ->
+    (bl = None \/ bl = Some (amap fst oldkids)) ->
+    accel_ok y ->
+    cres_equiv (achild p mask bl (n, y)) (fchild p mask (n, y)).
+  Proof.
+    intros p mask bl co oldkids m c n y Hg Hin Hod Hbl IHy. cbn [fst snd].
+    rewrite !child_res_eq. rewrite ignore_of_oic. unfold ignore_of. cbn [ic_lookup].
+    destruct (flt (p ++ [n]) FCheck); try exact I;
+      (destruct (is_temp n) eqn:Et; [exact I|]);
+      (destruct (utf8_valid n) eqn:Ev; cbn [negb]; [|apply cres_equiv_refl]).
+    all: destruct y as [m2 c2|mf df|ml tl|mx ty]; try apply cres_equiv_refl; cbv zeta; cbn [is_dir].
+    all: match goal with |- context [decide ?mk ?v] => destruct (decide mk v) as [|mask'] eqn:Ed end;
+      [cbn [cres_equiv]; repeat split; reflexivity|].
+    all: apply of_hres_equiv; rewrite handle_fresh.
+    all: first [ eapply (dir_equiv p mask bl co oldkids m c n); eassumption
+               | unfold handle; cbn [fnode]; rewrite (file_equiv _ _ _ _ _ _ _ _ _ Hg Hin Hod); apply res_equiv_refl
+               | apply res_equiv_refl ].
+  Qed.
+
+  Lemma accel_dir : forall y, accel_ok y.
+  Proof.
+    induction y as [m c IH|m d|m t|m ty] using node_nested_ind; unfold accel_ok;
+      intros p mask bl co oldkids Hg Hd Hod Hbl; try discriminate.
+    unfold fdir. rewrite !scan_dir_dir. fold fdir'.
+    destruct (negb (N.eqb (m_dev m) rootdev)); [apply res_equiv_refl|].
+    destruct (flt p FOpenDir) as [|e|]; [|apply res_equiv_refl|exact I].
+    destruct (flt p FReadContents) as [|e|]; [|apply res_equiv_refl|exact I].
+    assert (HF : Forall2 cres_equiv (map (achild p mask bl) c) (map (fchild p mask) c)).
+    { apply Forall2_map_in. intros [n y] Hin. rewrite Forall_forall in IH.
+      apply (child_equiv p mask bl co oldkids m c n y Hg Hin Hod Hbl). apply (IH _ Hin). }
+    apply run_kids_equiv in HF.
+    destruct (run_kids (map (achild p mask bl) c)) as [[[o1 i1] c1]|];
+      destruct (run_kids (map (fchild p mask) c)) as [[[o2 i2] c2]|]; cbn in HF; try tauto.
+    destruct HF as [-> ->]. cbn. auto.
   Qed.
 End C13.
